@@ -26,7 +26,7 @@ def scalar_of(v, what):
 def run(chk):
     E = LossEnv(chk.repo)
     chk.files = E.w.files
-    thorough = chk.tier == "thorough"
+    thorough = chk.full
     chk.rule("C03.R1", "dynamic term == Mean[rows](sum_c w_c R_c^2) of the user's residual evaluated at each row with the "
                        "given (row-aligned) parameters", floor=10)
     chk.rule("C03.R2", "returned total == sum of the returned per-term values", floor=6)
